@@ -26,3 +26,15 @@ check('C01', TV,
       'general p-norm sets are outside; ball-intersect-polytope rows are stretch obligations (may be undecided).',
       'SMT translation validation (QF_LRA/QF_NRA inclusion queries, block-sliced) of the compiled robust counterpart',
       'DESIGN.md section 4 C01')
+
+check('C02', TV,
+      'Exactness of the robust counterpart: for each block of the real compiled program (connected component of rows '
+      'over non-interface columns) z3 decides the exists-forall query "a point of the semi-infinite feasible set S '
+      '(adversary eliminated exactly) for which no value of the block\'s local columns satisfies the block" is unsat, '
+      'i.e. proj(P) contains S; with C01 the two sets are equal in the user\'s variables incl. LDR coefficient '
+      'columns. In addition the exact optimum of P and of "min t s.t. S" (z3 Optimize, rationals) are equal and equal '
+      'to what solve() reports. SOC-type sets: no S-point beats the reported optimum by more than delta (QF_NRA).',
+      'Trusted as C01. Set equality only for polyhedral sets; for ball/ellipsoid/mixed sets only the optimum of the '
+      'declared objective is decided (stretch obligations may be undecided). Family sets are bounded/non-empty.',
+      'SMT exists-forall LRA projection per block + exact LRA optimisation (z3 Optimize) + QF_NRA optimum sandwich',
+      'DESIGN.md section 4 C02')
